@@ -88,6 +88,16 @@ CHECKS = {
             "Depth-bounded (5/7 Python, 4/6 Rust), with scripted runs covering the 24-tick repeat delay; the Rust matrix only "
             "exposes the press threshold; KEYI gating is checked at write_fifo_to_memory / _scan_keyboard_per_instruction.",
             "DESIGN.md section 4, C14"),
+    "C15": ("model_checking",
+            "explicit-state BFS over (address, value) writes and reads in both LCD windows on the real Python HD61202Controller "
+            "and Rust LcdController against a reference HD61202 pair; complete enumeration of the VRAM-bit to pixel map",
+            "Every history up to the stated depth over all 16 low-nibble decodings of both windows x 15 values (+ reads) is "
+            "replayed on both real controllers and compared field by field (on, start line, page, column, VRAM, read values) with "
+            "the reference; all 2x8x64x8 VRAM bits are flipped one at a time to establish that each of the 7680 visible pixels has "
+            "exactly one owner and a data write changes at most 8 pixels of one display column.",
+            "Depth 2 (quick) / 3 (thorough) over the full alphabet, deeper over a reduced one, plus column-wrap scripts; only the "
+            "documented windows count as LCD accesses.",
+            "DESIGN.md section 4, C15"),
     "C17": ("exploration",
             "complete comparison of a finite configuration space: all 256 opcode rows and every duplicated constant, "
             "private Rust tables observed behaviourally through LlamaExecutor::execute",
